@@ -642,6 +642,9 @@ def thread_jobs(tier, seed):
     for vi, (variant, n) in enumerate(plan):
         for frm, cnt in split(n, 8):
             jobs.append(Job('h_thread', variant, pseed(seed, 'C20', vi), frm, cnt, label=variant))
+    # "no matter how late that thread is scheduled": the first case of each of these jobs holds the new thread up for seconds
+    for k in range(2 if q else 12):
+        jobs.append(Job('h_thread', 'mon', pseed(seed, 'C20', 30), 100000 + 7 * k, 3, ['lateus=%d' % (2600000 if q else 6500000), 'reuse=0', 'burst=0'], label='very-late-start'))
     return jobs
 
 
@@ -657,7 +660,7 @@ SPECS['C20'] = dict(
         'overwrites 32 KB of its dead stack; monitors: canary at entry and exit of the call, invocation count == 1, executing tid != starter tid, arguments by address and value, isFinished() false inside the '
         'callable, a poller that sees isFinished() must then see the callable\'s last action, the same after join(); Runnable run once, destroyed once, after run(). ASan build: the same defect class shows as '
         'stack-use-after-scope/-return. non-trivial = the body began after start() had returned; distinct = distinct (kind, args, path, delay bucket) among those',
-        samples, observed=pick(agg, 'starts', 'lateStarts', 'bodyDoneBeforeStartReturned', 'threadCreationFailuresInjected', 'detachedThenJoined', 'polledFinishes', 'reusedThreadObjects', 'maxStartsOfOneObject', 'runnables', 'canaryChecks', 'argumentIdentityChecks', 'callableCopiesObserved'), kinds=agg.get('kinds', {})),
+        samples, observed=pick(agg, 'starts', 'lateStarts', 'bodyDoneBeforeStartReturned', 'threadCreationFailuresInjected', 'detachedThenJoined', 'polledFinishes', 'burstsOfSameTypeCallables', 'startsDelayedBySeconds', 'reusedThreadObjects', 'maxStartsOfOneObject', 'runnables', 'canaryChecks', 'argumentIdentityChecks', 'callableCopiesObserved'), kinds=agg.get('kinds', {})),
     assumptions=['arguments are lvalues that outlive the thread (the statement quantifies over lvalue argument lists)', 'the Thread object outlives join()'],
     manifest=dict(engine='h_thread', text='Canary-carrying callables under manufactured late scheduling (trampoline delay + dead-stack clobbering) in a plain monitored build, and the same starts under ASan with '
                   'stack-use-after-return detection; completion ordering checked through marks written by the callable.',
